@@ -150,14 +150,19 @@ func (s *verifStream) QUICStream() *quic.Stream                       { return n
 // VerifEncodeResponse drives the real responseWriter: the handler-visible header map is
 // filled from hdr, WriteHeader(status) is called, body (may be empty) written, flushed;
 // then trailers are set (trailerVals: canonical key -> values, assigned after the body as
-// a handler would) and flushed. It returns the decoded field lists of the HEADERS frame and
+// a handler would, or already before WriteHeader when early) and flushed. It returns the decoded field lists of the HEADERS frame and
 // of the trailer HEADERS frame (nil if none was written).
-func VerifEncodeResponse(status int, hdr http.Header, body []byte, trailerVals http.Header) (fields, trailers []qpack.HeaderField, err error) {
+func VerifEncodeResponse(status int, hdr http.Header, body []byte, trailerVals http.Header, early bool) (fields, trailers []qpack.HeaderField, err error) {
 	s := &verifStream{}
 	str := newStream(s, nil, nil, func(io.Reader, *headersFrame) error { return nil }, nil)
 	rw := newResponseWriter(str, nil, false, slog.New(slog.NewTextHandler(io.Discard, nil)))
 	for k, vv := range hdr {
 		rw.Header()[k] = append([]string(nil), vv...)
+	}
+	if early { // a handler may also set the values of declared trailers before WriteHeader
+		for k, vv := range trailerVals {
+			rw.Header()[k] = append([]string(nil), vv...)
+		}
 	}
 	rw.WriteHeader(status)
 	if len(body) > 0 {
